@@ -82,7 +82,7 @@ class Rights(rights.BaseRights):
                     user_match = re.fullmatch(user_pattern.format(), user)
                 user_collection_match = user_match and re.fullmatch(
                     collection_pattern.format(
-                        *(re.escape(s) for s in user_match.groups()),
+                        *(re.escape(s or "") for s in user_match.groups()),
                         user=escaped_user), sane_path)
                 group_collection_match = group_match and re.fullmatch(
                     collection_pattern.format(user=escaped_user), sane_path)
